@@ -6,6 +6,7 @@ From AwkV Require Import Valid Types AtAxis Ops_Struct Proofs_Lists Proofs_ToLis
 From AwkV Require Import Ops_Reduce Proofs_Reduce Proofs_Reduce2.
 From AwkV Require Import Ops_Sort Proofs_SortRef Proofs_SortRef2.
 From AwkV Require Import Ops_Option Ops_Getitem Ops_Flatten Proofs_Fillna Proofs_Field Proofs_FlattenA Proofs_FlattenB Proofs_Flatten.
+From AwkV Require Import Ops_Getitem Proofs_Getitem Proofs_Getitem2 Proofs_Getitem3 Proofs_Getitem4 Proofs_Getitem5 Proofs_Getitem6 Proofs_Getitem7.
 
 Theorem byte_mask_encoding_irrelevant : forall m vw c vs,
   to_list c = Ok vs ->
@@ -117,3 +118,14 @@ Theorem layout_independent_flatten_partial : forall a b vs axis,
   obs (flatten_model axis a) = obs (flatten_model axis b).
 Proof. exact Proofs_Flatten.layout_independent_flatten_partial. Qed.
 Print Assumptions layout_independent_flatten_partial.
+
+(* add to the imports of coq/Props_C02.v *)
+
+(* slicing sees a layout only through its value and its type (fragment / side conditions: see Props_C01) *)
+Theorem layout_independent_getitem : forall items a b vs,
+  forallb item_ok items = true -> Valid None a -> Valid None b -> gfrag a = true -> gfrag b = true ->
+  to_list a = Ok vs -> to_list b = Ok vs -> type_of a = type_of b ->
+  slice_ok items a = true -> fuel_ok items a = true ->
+  obs (getitem_model items a) = obs (getitem_model items b).
+Proof. exact layout_independent_getitem_partial. Qed.
+Print Assumptions layout_independent_getitem.
